@@ -2,12 +2,14 @@
 \* built on them: they and their dependents must be dropped like any other invalid change.
 CONSTANTS
   Atomic = TRUE
+  SingleInPlace = FALSE
   DropDetached = TRUE
   Namespace = {1}
   M = 3
   MaxTs = 1
   Classes = {"ok", "badSig", "rejectLater"}
   MaxBad = 1
+  FullCauses = 1
   AllowDetached = TRUE
   Emit = TRUE
   EmitMod = 1
